@@ -13,11 +13,13 @@ func Build(config string) core.BuildFunc {
 		return BuildActor()
 	case "e2e-faulty":
 		return BuildE2E(true)
+	case "e2e-secs1":
+		return BuildE2ESECS1()
 	default:
 		return BuildE2E(false)
 	}
 }
 
 func TestWorker(t *testing.T) {
-	core.WorkerMain(t, core.Property{ID: "C05", Configs: []string{"actor", "e2e", "e2e-faulty"}, Build: Build})
+	core.WorkerMain(t, core.Property{ID: "C05", Configs: []string{"actor", "e2e", "e2e-faulty", "e2e-secs1"}, Build: Build})
 }
